@@ -51,6 +51,15 @@ func main() {
 	variantsOnly := flag.String("variants", "", "evaluate the self-validation corpus of a property (or 'all') without judging /repo")
 	flag.Parse()
 	debug.SetGCPercent(400)
+	// the `go` driver is looked up through this process's PATH: make the checker independent of the caller's shell
+	if _, err := os.Stat(goToolchain + "/bin/go"); err == nil && !strings.HasPrefix(os.Getenv("PATH"), goToolchain+"/bin") {
+		os.Setenv("PATH", goToolchain+"/bin:"+os.Getenv("PATH"))
+	}
+	os.Setenv("GOTOOLCHAIN", "local")
+	os.Setenv("GOFLAGS", "-mod=mod")
+	os.Setenv("GOPROXY", "off")
+	os.Setenv("GOSUMDB", "off")
+	os.Unsetenv("GOWORK")
 
 	cfg := Config{GOOS: *goos, GOARCH: *goarch, Tags: *tags}
 	switch {
